@@ -315,7 +315,9 @@ func cmdRun(args []string) int {
 		if r.unknown > 0 {
 			inconclusive = append(inconclusive, fmt.Sprintf("%s: %d solver queries answered unknown", r.h.Name, r.unknown))
 		}
-		if r.overBudget || len(r.queue) > 0 {
+		if r.budgetStop {
+			inconclusive = append(inconclusive, fmt.Sprintf("%s: exploration cut short after several paths hit the step or depth budget, %d prefixes unexplored", r.h.Name, len(r.queue)))
+		} else if r.overBudget || len(r.queue) > 0 {
 			inconclusive = append(inconclusive, fmt.Sprintf("%s: path budget %d exhausted with %d prefixes unexplored", r.h.Name, r.h.MaxPaths, len(r.queue)))
 		}
 		// split findings into known / to be confirmed
@@ -351,7 +353,13 @@ func cmdRun(args []string) int {
 		totalFindings += len(todo)
 		// native confirmation, one process per finding (a crash must not hide the others)
 		for _, f := range todo {
-			outs, raw, err := nativeReplay(r.h.Pkg, []replayCase{{Fn: r.h.Fn, Params: r.params, Inputs: f.Inputs}}, 120*time.Second)
+			limit := 120 * time.Second
+			if f.Kind == "budget" {
+				// a non-termination candidate: a run that has not returned after 40 s on inputs
+				// of a few bytes hangs (and may be allocating all the while)
+				limit = 40 * time.Second
+			}
+			outs, raw, err := nativeReplay(r.h.Pkg, []replayCase{{Fn: r.h.Fn, Params: r.params, Inputs: f.Inputs}}, limit)
 			if err != nil {
 				inconclusive = append(inconclusive, fmt.Sprintf("%s: native replay failed: %v: %s", r.h.Name, err, firstLine(raw)))
 				continue
